@@ -23,7 +23,7 @@ SHARD_DEADLINE = {'quick': 300, 'thorough': 3300}
 def floors(tier):
     return {'distinct_nontrivial': 6000 if tier == 'quick' else 60000, 'generic_executions': 3000,
             'numeric_reexecutions': 200, 'permuted_order_cases': 200, 'empty_operand_cases': 20,
-            'distinct_generated_functions': 2500, 'cse_false_cases': 100, 'wrapper_configured_cases': 300, 'graded_mode_cases': 80}
+            'distinct_generated_functions': 2500, 'cse_false_cases': 100, 'wrapper_configured_cases': 300, 'graded_mode_cases': 80, 'paired_configuration_units': 6}
 
 
 def plan(tier, seed):
@@ -55,6 +55,11 @@ def plan(tier, seed):
             U += u(gen.random_custom_cfg(rng, rng.choice((2, 3, 3, 4))), 'random', 1, count=120, cap=6)
         for c in gen.NAMED:
             U += u(c, 'sparse', 1, count=120, cap=6)
+        # default basis and custom basis of one signature in one process, same key patterns (state shared between Algebra instances)
+        for a_, b_ in (({'p': 2, 'q': 0, 'r': 1}, {'named': '2DPGA'}), ({'named': '3DPGA'}, {'p': 3, 'q': 0, 'r': 1}),
+                       ({'signature': [1, -1]}, {'signature': [1, -1], 'basis': ['e', 'e2', 'e1', 'e21']}),
+                       ({'signature': [1, 1, 1], 'basis': ['e', 'e3', 'e1', 'e2', 'e31', 'e12', 'e32', 'e312']}, {'p': 3, 'q': 0, 'r': 0})):
+            U += [dict(unit_, pair_with=b_, pseed=rng.randrange(10 ** 9)) for unit_ in u(a_, 'sparse', 1, count=60, cap=5, perm=0.2)]
         for s in (0, 2):
             U += u({'p': 2, 'q': 1, 'r': 0, 'start_index': s}, 'random', 1, count=40, cap=8)
         for c in ({'p': 2, 'q': 0, 'r': 1}, {'p': 1, 'q': 1, 'r': 1}, {'p': 3, 'q': 0, 'r': 0}, {'p': 1, 'q': 0, 'r': 2}):
@@ -115,7 +120,13 @@ def numeric_kinds(rng, keys, kind):
 
 def run_shard(shard, ctx):
     algs = {}
+    units = []
     for unit in shard['units']:
+        units.append(unit)
+        if unit.get('pair_with'):
+            # the twin configuration (same signature, other basis) follows immediately in the same process, on the same key patterns
+            units.append(dict(unit, cfg=unit['pair_with'], pair_with=None))
+    for unit in units:
         cfg = unit['cfg']
         name = gen.cfg_str(cfg)
         if name not in algs:
@@ -125,7 +136,10 @@ def run_shard(shard, ctx):
             algs[name] = (alg, Iso(alg))
             ctx.count('algebras')
         alg, iso = algs[name]
-        for kx, ky in workload.iter_patterns(unit, alg, ctx.rng):
+        prng = random.Random(unit['pseed']) if unit.get('pseed') is not None else ctx.rng
+        if unit.get('pseed') is not None:
+            ctx.count('paired_configuration_units')
+        for kx, ky in workload.iter_patterns(unit, alg, prng):
             if ctx.out_of_time():
                 ctx.count('patterns_skipped_out_of_time')
                 break
